@@ -68,7 +68,7 @@ Lemma getr_set_insts s l r : getr (set_insts s l) r = getr s r. Proof. reflexivi
 (* start on a registered record *)
 Lemma PI_start s k r c w f : lookup (kmap s) k = Some r -> PI s (start_rec s r c w f).
 Proof.
-  intros Hk. unfold start_rec. set (x := getr s r). destruct (negb f && rsucc x); [apply PI_refl|].
+  intros Hk. unfold start_rec. set (x := getr s r). destruct (negb f && rsucc x || rnil x); [apply PI_refl|].
   destruct (negb f && is_some (rctx x) && negb (rexited x) && ctx_live s (rctx x)); [apply PI_refl|]. cbn zeta.
   set (s2 := cancel_inst (stop_timer s (rretry x)) (rcancel x)).
   assert (P2 : PI s s2) by (eapply PI_trans; [apply PI_stop_timer | apply PI_cancel_inst]).
@@ -163,7 +163,7 @@ Qed.
 Theorem PI_step s e : PI s (step repaired s e).
 Proof.
   destruct (ordinary e) eqn:O; [now apply PI_ordinary|].
-  destruct e; try discriminate O; cbn [step]; [apply PI_set_context | unfold advance; piext | apply PI_cancel_root].
+  destruct e; try discriminate O; cbn [step]; [apply PI_set_context | unfold advance; piext | apply PI_cancel_root | piext].
 Qed.
 Lemma ID_init dl sc : ID (init dl sc).
 Proof.
